@@ -32,7 +32,7 @@ type env struct {
 	rotKs  []int
 }
 
-var initNames = []string{"equal", "r1-scale-x2", "r1-rescaled", "r0-lower-level"}
+var initNames = []string{"equal", "r1-scale-x2", "r1-rescaled", "r0-lower-level", "r1-degree2"}
 
 // operand values: distinct in every slot, no symmetry (neither real nor conjugate-symmetric, no equal
 // operands), magnitudes around 1 so that products stay well inside the modulus.
@@ -167,6 +167,18 @@ func newEnv(seed uint64, cf cklib.Cfg) *env {
 		{fresh(0, L, e.delta), fresh(1, L, ratMul(e.delta, ratPow2(1))), fresh(2, L, e.delta)},
 		{fresh(0, L, e.delta), fresh(1, L-e.k, resc), fresh(2, L, e.delta)},
 		{fresh(0, L-e.k, e.delta), fresh(1, L, e.delta), fresh(2, L, e.delta)},
+	}
+	// fifth file: R1 is an unrelinearised product (degree 2, scale Δ²), built with the model's own rules
+	{
+		a, b := fresh(1, L, e.delta), fresh(2, L, e.delta)
+		ct, err := e.ev.MulNew(a.ct, b.ct)
+		if err != nil {
+			panic(err)
+		}
+		d2 := &reg{ct: ct, level: L, degree: 2, scale: ratMul(e.delta, e.delta), logSlots: x.LogSl,
+			v:   cklib.Map2(a.v, b.v, func(p, q cklib.C) cklib.C { return p.Mul(q) }),
+			eps: mulErr(a.v.MaxAbs(), a.eps, b.v.MaxAbs(), b.eps)}
+		e.inits = append(e.inits, []*reg{fresh(0, L, e.delta), d2, fresh(2, L, e.delta)})
 	}
 	return e
 }
